@@ -84,6 +84,17 @@ def gen_defset(rng, n_entities=None, tie_heavy=False):
         ks = list(ents)
         ents[ks[0]]['props'].append(('twinSmall', small, 'ALL_CLIENTS')); ents[ks[0]]['props'].append(('twinBig', ('array', big, None), 'ALL_CLIENTS'))
         ents[ks[-1]]['props'].append(('twinBig2', big, 'OWN_CLIENT'))
+    chain = None
+    if rng.random() < 0.5:
+        # aliases that refer to ANOTHER alias by name (directly, as array element, as dict member) while alias_ext.xml redefines that other alias with
+        # a type of a different size: ids (sorted by size) and decoding of every member that uses such an alias depend on how references are resolved
+        b0, b1 = rng.sample(['UINT8', 'UINT16', 'UINT32', 'UINT64', 'FLOAT32', 'VECTOR3', 'STRING'], 2)
+        chain = dict(alias='<CHB> %s </CHB>\n<CHA> CHB </CHA>\n<CHARR> ARRAY <of> CHB </of> <size> 3 </size> </CHARR>\n'
+                           '<CHDICT> FIXED_DICT <Properties><x><Type> CHB </Type></x><y><Type> UINT16 </Type></y></Properties> </CHDICT>\n' % b0,
+                     ext='<CHB> %s </CHB>\n' % b1)
+        ks = list(ents); k0 = ks[rng.randrange(len(ks))]
+        ents[k0]['raw_client_methods'] = ''.join('<chm%d><Arg> %s </Arg></chm%d>' % (i, t, i) for i, t in enumerate(rng.sample(['CHA', 'UINT16', 'CHARR', 'CHB', 'CHDICT', 'UINT32', 'UINT8'], 6)))
+        ents[k0]['raw_props'] = ''.join('<chp%d><Type> %s </Type><Flags> ALL_CLIENTS </Flags></chp%d>' % (i, t, i) for i, t in enumerate(rng.sample(['CHA', 'UINT16', 'CHARR', 'CHB', 'CHDICT', 'UINT32', 'UINT8'], 5)))
     if tie_heavy:
         # many same-sized members so that only stability decides the order
         for sec in list(ents.values()) + list(ifaces.values()):
@@ -92,23 +103,25 @@ def gen_defset(rng, n_entities=None, tie_heavy=False):
             for i in range(len(sec['client_methods'])):
                 nm, args, hdr, named = sec['client_methods'][i]
                 sec['client_methods'][i] = (nm, [(a, rng.choice([('u', 4), ('f32',), ('string',)])) for a, _ in args], hdr, named)
-    return dict(aliases=aliases, alias_ext=alias_ext, ifaces=ifaces, ents=ents, wrapped=rng.random() < 0.5)
+    return dict(aliases=aliases, alias_ext=alias_ext, ifaces=ifaces, ents=ents, wrapped=rng.random() < 0.5, chain=chain)
 
 
 def section_xml(sec, rng, aliases):
     out = ['<root>']
     if sec['implements']:
         out.append('<Implements>' + ''.join('<Interface> %s </Interface>' % i for i in sec['implements']) + '</Implements>')
-    if sec['props'] or rng.random() < 0.5:
+    if sec['props'] or sec.get('raw_props') or rng.random() < 0.5:
         out.append('<Properties>')
         for nm, t, fl in sec['props']:
             out.append('<%s>%s<Flags> %s </Flags></%s>' % (nm, impl.type_xml(t, 'Type', rng, aliases), fl, nm))
+        out.append(sec.get('raw_props', ''))
         out.append('</Properties>')
     if sec['volatile']:
         out.append('<Volatile>' + ''.join('<%s/>' % t for t in sec['volatile']) + '</Volatile>')
     for bucket, tag in (('client_methods', 'ClientMethods'), ('cell_methods', 'CellMethods'), ('base_methods', 'BaseMethods')):
-        if not sec[bucket] and rng.random() < 0.5: continue
+        if not sec[bucket] and rng.random() < 0.5 and not (bucket == 'client_methods' and sec.get('raw_client_methods')): continue
         out.append('<%s>' % tag)
+        if bucket == 'client_methods': out.append(sec.get('raw_client_methods', ''))
         for nm, args, hdr, named in sec[bucket]:
             body = ''
             if named: body += '<Args>' + ''.join(impl.type_xml(t, a, rng, aliases) for a, t in args) + '</Args>'
@@ -128,10 +141,11 @@ def write_defset(ds, rng, base=None):
     body = ''
     for n, t in ds['aliases'].items():
         body += impl.type_xml(t, n, rng, done) + '\n'; done[n] = t
-    open(os.path.join(d, 'alias.xml'), 'w').write('<root>\n<!-- generated -->\n' + body + '</root>\n')
+    chain = ds.get('chain')
+    open(os.path.join(d, 'alias.xml'), 'w').write('<root>\n<!-- generated -->\n' + body + (chain['alias'] if chain else '') + '</root>\n')
     eff = dict(done)
-    if ds['alias_ext']:
-        body = ''
+    if ds['alias_ext'] or chain:
+        body = chain['ext'] if chain else ''
         for n, t in ds['alias_ext'].items():
             body += impl.type_xml(t, n, rng, None) + '\n'; eff[n] = t
         open(os.path.join(d, 'alias_ext.xml'), 'w').write('<root>\n' + body + '</root>\n')
